@@ -371,6 +371,9 @@ def dry_runs():
     yield 'T5_reader_thread', dict(n=2, fail_at=1)
 
 
+PROBES = ['transports']      # representation probes (harness/probes.py) this harness depends on
+
+
 MANIFEST_ENTRY = {
     'level_text': 'Bounded symbolic verification of the real read_nonblocking of every transport (pty select/poll, '
                   'raw fd, socket, piped subprocess) as ONE call from an arbitrary world state: bytes written/read '
